@@ -16,6 +16,7 @@ import (
 	"strconv"
 	"strings"
 	"sync"
+	"syscall"
 	"testing"
 	"testing/cryptotest"
 	"testing/synctest"
@@ -472,7 +473,18 @@ func (es *echState) dialFunc(p *EchPlan) func(context.Context, string, string, *
 							err = fmt.Errorf("handshake with %s: %w", addr, re)
 						}
 					default:
-						err = fmt.Errorf("connect %s: connection refused (scripted)", addr)
+						// the ways a TLS dial fails without the server having said
+						// anything about ECH
+						switch core.Mix(3, ip, c.n) % 4 {
+						case 0:
+							err = fmt.Errorf("connect %s: connection refused (scripted)", addr)
+						case 1:
+							err = io.EOF
+						case 2:
+							err = &net.OpError{Op: "read", Net: "tcp", Err: syscall.ECONNRESET}
+						default:
+							err = fmt.Errorf("handshake with %s: %w", addr, io.ErrUnexpectedEOF)
+						}
 					}
 				case <-ctx.Done():
 					tm.Stop()
@@ -576,12 +588,22 @@ func executeEch(t *testing.T, prop string, seed uint64, p *EchPlan) *core.Result
 		if os.Getenv("VERIF_DEBUG") != "" {
 			fmt.Fprintln(os.Stderr, msg)
 		}
-		if strings.Contains(msg, "all goroutines in bubble are blocked") {
+		switch {
+		case strings.Contains(msg, "all goroutines in bubble are blocked"):
 			res.Fail(prop, "hang", "Dial: all goroutines blocked", "%s", firstLine(msg))
-		} else {
+			return res
+		case strings.Contains(msg, "blocked goroutines remain") && len(libLeft) > 0 && len(other) == 0:
+			// goroutines of Dial that can never finish although every attempt has
+			// returned and the caller's context was cancelled: C18's clause. (Under
+			// C17 the run is judged as usual; the leak is only noted.)
+			if prop == "C18" {
+				res.Fail(prop, "goroutine-leak", strings.Join(dedup(libLeft), ","), "%d goroutine(s) of Dial blocked for good after every attempt returned: %v", len(libLeft), libLeft)
+				return res
+			}
+		default:
 			res.Harness = "bubble: " + firstLine(msg)
+			return res
 		}
-		return res
 	}
 	if res.Harness != "" {
 		return res
@@ -596,7 +618,10 @@ func executeEch(t *testing.T, prop string, seed uint64, p *EchPlan) *core.Result
 		res.Harness = "goroutines left at end of run: " + strings.Join(other, ",")
 	}
 	if len(libLeft) > 0 {
-		res.Probe("lib_goroutines_left") // C18's business; not judged here
+		res.Probe("lib_goroutines_left") // C18's business; not judged under C17
+		if prop == "C18" {
+			res.Fail(prop, "goroutine-leak", strings.Join(dedup(libLeft), ","), "%d goroutine(s) of Dial alive after every attempt returned and the caller's context ended: %v", len(libLeft), libLeft)
+		}
 	}
 	if panicS != "" {
 		res.Fail(prop, "panic", panicAt, "Dial panicked: %s", panicS)
